@@ -272,8 +272,11 @@ def dynamicTables (inp : Array Nat) (pos : Nat) : Rd (Huff × Huff) :=
                 | none => .bad                   -- invalid distances set
                 | some dist => .ok (lit, dist) p2
 
-/-- the block loop -/
-def blocks (inp : Array Nat) (wsize : Nat) : Nat → Nat → Array Nat → Option (Array Nat)
+/-- the block loop.  `cont = false`: a BFINAL=1 block ends the stream (zlib's object: later input
+    is ignored).  `cont = true` (the repaired `Deflate.decompress`): a BFINAL=1 block only ends
+    *that deflate stream* — decoding goes on at the next byte boundary, as a new stream whose
+    window holds the output so far -/
+def blocks (cont : Bool) (inp : Array Nat) (wsize : Nat) : Nat → Nat → Array Nat → Option (Array Nat)
   | 0, _, out => some out
   | fuel + 1, pos, out =>
     match bits inp pos 3 with
@@ -294,12 +297,21 @@ def blocks (inp : Array Nat) (wsize : Nat) : Nat → Nat → Array Nat → Optio
       match r with
       | .bad => none
       | .eoi out' => some out'
-      | .done p out' => if last = 1 then some out' else blocks inp wsize fuel p out'
+      | .done p out' =>
+        if last = 1 then (if cont then blocks cont inp wsize fuel ((p + 7) / 8 * 8) out' else some out')
+        else blocks cont inp wsize fuel p out'
 
 /-- everything `zlib.decompressobj(-wbits)` has returned after being fed `input`
     (in any number of pieces); `none` = it raised `zlib.error` -/
 def inflateAll (wbits : Nat) (input : Bytes) : Option Bytes :=
   let inp := input.toArray
-  (blocks inp (2 ^ wbits) (8 * inp.size + 1) 0 #[]).map Array.toList
+  (blocks false inp (2 ^ wbits) (8 * inp.size + 1) 0 #[]).map Array.toList
+
+/-- the same for the repaired `Deflate.decompress` (fix of D6): whenever the zlib stream ends
+    (BFINAL=1) the rest of the input goes to a new `decompressobj(-wbits)` primed with the last
+    `2^wbits` bytes of output; `none` = one of them raised `zlib.error` -/
+def inflateAllSafe (wbits : Nat) (input : Bytes) : Option Bytes :=
+  let inp := input.toArray
+  (blocks true inp (2 ^ wbits) (8 * inp.size + 1) 0 #[]).map Array.toList
 
 end Lomond.Inflate
